@@ -360,8 +360,13 @@ def rand_fd_op(rng, st, small=False):
 def rand_fd_history(rng, st, n, small=False):
     ops = []
     while len(ops) < n:
-        l = rand_fd_op(rng, st, small)
-        for _ in range(2 if rng.random() < 0.15 else 1):
+        if rng.random() < 0.04:
+            # the value of one live 8-octet ID / sequence-number object edited in place along values CPython hashes alike,
+            # the PDU (or its header) packed after every step
+            burst = h5.collision_burst(rng, {"hd": st["hd"], "ids": st["ids"], "flags": st["flags"]}, rng.choice([(30,), (30,), (15,)]))
+        else:
+            burst = [rand_fd_op(rng, st, small)] * (2 if rng.random() < 0.15 else 1)
+        for l in burst:
             ops.append(l)
             st, _ = fd_expect(st, l)
     return ops + [[30], [30]], st
@@ -509,6 +514,24 @@ def streams(tier, rng):
                 ops.append([2] + _rand_meta(rng, rng.choice([0, 1, 4, 63, 64]))[1:])
         cases.append((1406, a + ops))
     yield "setter_histories", "exact", cases
+    # PDUs whose (correct) CRC-16 trailer is 0x0000 / 0xFFFF / has a zero octet / a single bit (a derived quantity random
+    # packets hit once in 65536; found by steering the sequence number, c05.steer_crc): decode, re-pack, round trip
+    cases = []
+    for sl, ql in (itertools.product((1, 2, 4, 8), repeat=2) if big else [(1, 1), (1, 2), (2, 1), (2, 4), (4, 8), (8, 8)]):
+        for target in h5.crc_targets(rng) * 2:
+            for _ in range(50):
+                a = _rand_pdu(rng, sl=sl, ql=ql, crc=1)
+                if valid_fd(a):
+                    break
+            b2 = h5.steer_crc(lay(a), target)
+            a2 = [list(x) for x in a]; a2[0] = h5.ids_of(b2)
+            if lay(a2) != b2:
+                raise RuntimeError("steered PDU is not the layout of its arguments")
+            cases.append((1402, [b2])); cases.append((1403, [b2])); cases.append((1404, a2)); cases.append((1401, a2))
+            cases.append((1402, [b2 + [rng.randrange(256) for _ in range(rng.choice([1, 3]))]]))
+            q = list(b2); q[-1 - rng.randrange(2)] ^= 1 << rng.randrange(8)
+            cases.append((1402, [q]))
+    yield "crc_trailer_special_values", "exact", cases
     # 10. operation histories on one PDU object: both setters (bytes and bytearray), the same object assigned again after
     #     the caller changed it in place, edits of the header / configuration / byte fields / segment metadata /
     #     parameter object reachable from the PDU, refused assignments, pack in between and twice at the end;
